@@ -91,6 +91,17 @@ CHECKS = {
              'start with a resourceVersion test and touch only transformation targets; no request after a 404; 404 is silent), and '
              'no write on another uid than the handled one. One listed known finding (merge-patches land on a same-named successor).',
         design_ref='5/C08'),
+    'C09': dict(
+        technique='property-based testing: Hypothesis-generated closed-loop histories over daemons/timers with generated stop behaviours and '
+                  'cancellation settings, label toggles, graceful and forced deletions, pauses by a generated peer record and operator exit; '
+                  'oracle = lifecycle invariants D1-D6 over enter/exit/stop-flag records vs delivery instants, plus a wall-clock stall '
+                  'watchdog on every event-loop callback',
+        text='At most one live instance per (object, handler); started at the delivery instant of the first matching event (+initial '
+             'delay); the stop flag arrives exactly at the instant of the triggering event (deletion mark, disappearance, mismatch, pause, '
+             'exit) with the right reason; cancellation not before the backoff; never restarted after exiting on its own; timers silent '
+             'while paused/after exit; the operator neither crashes, nor livelocks, nor blocks its event loop. One listed known finding '
+             '(instances survive a disappearance without deletion mark).',
+        design_ref='5/C09'),
     'C10': dict(
         technique='property-based testing with exact virtual time: Hypothesis-generated timer declarations (interval x sharp x idle x '
                   'initial_delay constant/callable x backoff), run durations, outcome scripts and object-change instants in the closed loop; '
